@@ -23,9 +23,9 @@ Theorem C20_n_below_2 : forall s n pw gpow k ys, (n < 2)%Z ->
 Proof. exact reject_n_below_2. Qed.
 Print Assumptions C20_n_below_2.
 
-Theorem C20_unknown_rule : forall pw x y xr yr m fi ridx r, resolve_fixed x xr m = Ok (fi, ridx) ->
-  match_ref pw x y xr yr m r UnknownRule = Raise ValueError /\
-  ((2 <= length fi)%nat -> (2 <= length ridx)%nat -> match_ref pw x y xr yr m UnknownRule Rectangle = Raise ValueError).
+Theorem C20_unknown_rule : forall pw x y xr yr m r,
+  match_ref pw x y xr yr m UnknownRule r = Raise ValueError /\
+  (forall fi ridx, resolve_fixed x xr m = Ok (fi, ridx) -> match_ref pw x y xr yr m r UnknownRule = Raise ValueError).
 Proof. exact reject_unknown_rule. Qed.
 Print Assumptions C20_unknown_rule.
 
